@@ -97,7 +97,8 @@ class World:
         if cfg["kind"] == "http":
             ctx.server = connection.Server(address=self.addr)
             ctx.server.via = ("http", ("proxy.test", 8080))
-            stack = _upstream_proxy.HttpUpstreamProxy.make(ctx, True)
+            stack = tunnel.LayerStack()
+            stack /= _upstream_proxy.HttpUpstreamProxy.make(ctx, True)  # as HttpLayer.get_connection builds it
             self.top = stack[0]
             self.tun = self.top.tunnel_connection
             self.inner = ctx.server
@@ -299,7 +300,7 @@ class World:
                     t["reading"] = False
                     self.pay_written -= sum(len(ch[1]) for ch in self.net if ch[0] == "p")  # never read: not part of the stream
                     self.net = []
-                else:  # its task (waiting for this) unregisters it when it runs again: after the current event
+                elif not self.echo:  # its task (waiting for this) unregisters it when it runs again: after the current event
                     self.dying = True
         else:
             tr.append({"k": "out", "what": "other", "name": type(cmd).__name__})
@@ -353,7 +354,7 @@ class World:
             tr.append({"k": "in", "what": "open_done", "ok": ok})
             if ok:
                 cmd.connection.state = S.OPEN
-                self.transports[cmd.connection]["reading"] = True
+                self.transports.setdefault(cmd.connection, {})["reading"] = True
                 self.net, self.pfin = [], False
                 self.feed(events.OpenConnectionCompleted(cmd, None))
             else:
@@ -455,7 +456,8 @@ class World:
             self.echo = False
             tr.append({"k": "in", "what": "tclose", "echo": True})
             self.feed(events.ConnectionClosed(self.tun))
-            self.transports.pop(self.tun, None)
+            if self.pending_open is None:
+                self.transports.pop(self.tun, None)
         else:
             return False
         return True
@@ -464,7 +466,8 @@ class World:
         ok = self.do(op)
         if self.dying:
             self.dying = False
-            self.transports.pop(self.tun, None)
+            if self.pending_open is None:
+                self.transports.pop(self.tun, None)
         return ok
 
     def run(self, ops):
